@@ -94,7 +94,7 @@ def run(worker, nworkers):
                 else:
                     res['status'] = 'survived'; res['checks'] = {}
                     mapped = list(FILES[m['file']])
-                    if re.search(r'delete|free|new |alloc|\[', m['old']) and 'C16' not in mapped: mapped.append('C16')   # memory behaviour last (slow)
+                    if 'C16' not in mapped: mapped.append('C16')   # memory behaviour last (slow), for every survivor of the mapped checks
                     for cid in mapped:
                         rc, out = sh(['./tools/check', cid, '--tier', 'quick'], cwd='/verif', env=env, timeout=3000)
                         res['checks'][cid] = rc
